@@ -51,7 +51,8 @@ Variable E : env.
 Definition rec_sound (r : arec) : Prop :=
   exists n, nodes (a_pre r) !! a_node r = Some n /\
     (forall c, c ∈ a_cands r -> c ∈ node_cands E (a_kind r) (a_pre r) (a_task r) (a_queue r) n) /\
-    (forall c, c ∈ a_evicted r -> c ∈ victims eps E (a_kind r) (a_pre r) (a_task r) (a_cands r)) /\
+    (forall c, c ∈ a_evicted r ->
+       c ∈ victims eps (with_qorder E (a_qorder r)) (a_kind r) (a_pre r) (a_task r) (a_cands r)) /\
     NoDup (map t_id (a_cands r)).
 
 (* a candidate is one of the node's task copies and passes the action's filter *)
@@ -178,13 +179,15 @@ Proof.
   intros Hn. unfold run_attempt.
   destruct (nodes s !! at_node a) as [n|] eqn:Hnode.
   2:{ intros [= <- <- <- <-]. split; [apply att_post_unchanged; auto|]. intros r Hr; inversion Hr. }
-  destruct (negb (same_ids (node_cands E k s p pq n) (at_cands a) && bool_decide (NoDup (at_cands a)))) eqn:Hnd.
+  destruct (negb (same_ids (node_cands E k s p pq n) (at_cands a) && bool_decide (NoDup (at_cands a)) &&
+             (negb (has_plugin E KCap && is_reclaim k) || same_ids (node_cands E k s p pq n) (at_qorder a)))) eqn:Hnd.
   { intros [= <- <- <- <-]. split; [apply att_post_unchanged; auto|]. intros r Hr; inversion Hr. }
-  apply negb_false_iff, andb_true_iff in Hnd as [_ Hnd]. apply bool_decide_eq_true in Hnd.
+  apply negb_false_iff, andb_true_iff in Hnd as [Hnd _]. apply andb_true_iff in Hnd as [_ Hnd].
+  apply bool_decide_eq_true in Hnd.
   set (cands := omap (find_task (node_cands E k s p pq n)) (at_cands a)).
   destruct (is_reclaim k && bool_decide (cands = [])).
   { intros [= <- <- <- <-]. split; [apply att_post_unchanged; auto|]. intros r Hr; inversion Hr. }
-  set (vs := victims eps E k s p cands).
+  set (vs := victims eps (with_qorder E (at_qorder a)) k s p cands).
   destruct (negb (less_equal eps (t_init p) (sum_reqs (future_idle n) vs) DZero)).
   { intros [= <- <- <- <-]. split; [apply att_post_unchanged; auto|]. intros r Hr; inversion Hr. }
   (* the loop *)
@@ -207,11 +210,11 @@ Proof.
   destruct (if is_reclaim k then _ else _) as [[[s1 done] fits] v1].
   specialize (Hloop _ _ _ _ eq_refl). destruct Hloop as (hsub & h2 & h3 & h4 & h5 & h6).
   (* the record of this attempt is sound whatever its outcome *)
-  assert (Hsound : forall b, rec_sound (mkRec k s p pq (at_node a) cands done b)).
+  assert (Hsound : forall b, rec_sound (mkRec k s p pq (at_node a) cands (at_qorder a) done b)).
   { intros b. exists n. simpl. split; [exact Hnode|]. split.
     - intros c Hc. apply omap_find_in in Hc. exact Hc.
     - split; [intros c Hc; apply hsub, Hc|]. apply omap_find_nodup, Hnd. }
-  assert (Hfields : forall b r, r ∈ [mkRec k s p pq (at_node a) cands done b] ->
+  assert (Hfields : forall b r, r ∈ [mkRec k s p pq (at_node a) cands (at_qorder a) done b] ->
             a_kind r = k /\ a_pre r = s /\ a_task r = p /\ a_queue r = pq /\ a_node r = at_node a).
   { intros b r Hr. apply elem_of_list_singleton in Hr as ->. simpl. auto. }
   destruct (negb (v1 =? V_OK)).
@@ -227,7 +230,7 @@ Proof.
   assert (Hf4 : forall x, ops s1f x = ops s1 x) by reflexivity.
   destruct (stmt_pipeline eps s1f nsid (t_id p) (at_node a)) as [s2 r] eqn:Hp.
   apply stmt_pipeline_spec in Hp as (p1 & p2 & p3 & p4 & p5).
-  assert (Hd : r <> ROk -> att_post s (stmt_discard eps s2 nsid) false [mkRec k s p pq (at_node a) cands done false]).
+  assert (Hd : r <> ROk -> att_post s (stmt_discard eps s2 nsid) false [mkRec k s p pq (at_node a) cands (at_qorder a) done false]).
   { intros Hr. apply discard_nsid; auto; try congruence.
     intros sid Hs. unfold ops. rewrite (p5 Hr). fold (ops s1f sid). rewrite Hf4. apply h6, Hs. }
   destruct r.
@@ -257,10 +260,10 @@ Lemma faulted_pipeline_never_assigned k s p pq a s' ok v lg :
 Proof.
   intros Hok Hfault. unfold run_attempt.
   destruct (nodes s !! at_node a) as [n|]; [|intros [= <- <- <- <-]; reflexivity].
-  destruct (negb (same_ids _ _ && _)); [intros [= <- <- <- <-]; reflexivity|].
+  destruct (negb (same_ids _ _ && _ && _)); [intros [= <- <- <- <-]; reflexivity|].
   set (cands := omap (find_task (node_cands E k s p pq n)) (at_cands a)).
   destruct (is_reclaim k && bool_decide (cands = [])); [intros [= <- <- <- <-]; reflexivity|].
-  set (vs := victims eps E k s p cands).
+  set (vs := victims eps (with_qorder E (at_qorder a)) k s p cands).
   destruct (negb (less_equal eps (t_init p) (sum_reqs (future_idle n) vs) DZero)); [intros [= <- <- <- <-]; reflexivity|].
   assert (Hloop : forall s1 done fits v1,
      (if is_reclaim k
@@ -344,7 +347,7 @@ Proof.
     { intros [= <- <- <-]. split; [apply att_post_unchanged; auto|constructor]. }
     destruct (negb (bool_decide (t_status p = Pending) && bool_decide (t_job p = jid))).
     { intros [= <- <- <-]. split; [apply att_post_unchanged; auto|constructor]. }
-    destruct (is_reclaim k && negb (queue_allocatable E s (j_queue j) p)).
+    destruct (is_reclaim k && negb (queue_preemptive eps E s (j_queue j) p)).
     { intros [= <- <- <-]. split; [apply att_post_unchanged; auto|constructor]. }
     destruct (run_attempts eps E k s tid (j_queue j) atts) as [[[s1 ok1] v1] lg1] eqn:Ha.
     apply run_attempts_spec in Ha as [Ha Hf]; [|exact Hn].
